@@ -72,8 +72,12 @@ pub struct Cfg {
     pub sqpoll: bool,
     /// Failing zero-copy sends still post a notification CQE.
     pub zc_error_notif: bool,
+    /// The descriptor every operation works on is a direct descriptor (needs `direct_table`).
+    pub fd_direct: bool,
     /// Offer DropHeld / CloseHeld / Stdio letters.
     pub held_letters: bool,
+    /// Offer RereadHeld: read again into a pool buffer an operation handed out.
+    pub reread_held: bool,
     /// The pool has already performed this many releases (multiple of the pool size).
     pub pool_shift: u16,
 }
@@ -89,6 +93,7 @@ impl Cfg {
             kinds: vec![Kind::ReadVec],
             max_ops: 2,
             preset: Vec::new(),
+            fd_direct: false,
             direct_table: None,
             pool: (2, 8),
             costs: Costs::default(),
@@ -105,6 +110,7 @@ impl Cfg {
             final_drop_ring_first: false,
             sqpoll: false,
             zc_error_notif: true,
+            reread_held: false,
             held_letters: false,
             pool_shift: 0,
         }
@@ -131,6 +137,8 @@ pub enum Action {
     CloseHeld(usize),
     /// Create and drop a standard stream handle.
     Stdio(u8),
+    /// Read again (variant `via`) into the first pool buffer handed out by operation `i`.
+    RereadHeld(usize, u8),
 }
 
 /// Completion outcome letters.
@@ -202,6 +210,8 @@ struct Slot {
     ready_unwoken_since: Option<u64>,
     /// Objects handed out by the op (shared with the Op while it lives).
     held: HeldPair,
+    /// RereadHeld: what the buffer held when it was passed in.
+    prefix: Vec<u8>,
 }
 
 #[derive(Clone, Debug, PartialEq, Eq)]
@@ -231,6 +241,8 @@ pub struct OpsWorld {
     sq: Option<SubmissionQueue>,
     fd: Option<&'static AsyncFd>,
     fd_raw: i32,
+    /// The regular descriptor the direct one was made from (`fd_direct`).
+    fd_regular: Option<&'static AsyncFd>,
     pool: Option<ReadBufPool>,
     slots: Vec<Slot>,
     violations: Vec<Violation>,
@@ -255,6 +267,9 @@ pub struct OpsWorld {
 fn v(prop: &str, sig: &str, msg: String) -> Violation {
     Violation::new(prop, sig, &msg)
 }
+
+/// Whether the current world's base descriptor is direct (read by `render`).
+static BASE_FD_DIRECT: std::sync::atomic::AtomicBool = std::sync::atomic::AtomicBool::new(false);
 
 impl OpsWorld {
     pub fn new(cfg: Cfg) -> OpsWorld {
@@ -294,6 +309,7 @@ impl OpsWorld {
             sq: Some(sq),
             fd: Some(fd),
             fd_raw,
+            fd_regular: None,
             pool,
             slots: Vec::new(),
             violations: Vec::new(),
@@ -310,6 +326,10 @@ impl OpsWorld {
             pool_bufs: Vec::new(),
             lost_reported: false,
         };
+        BASE_FD_DIRECT.store(false, std::sync::atomic::Ordering::SeqCst);
+        if w.cfg.fd_direct {
+            w.convert_base_fd();
+        }
         w.learn_pool();
         for k in w.cfg.preset.clone() {
             w.new_op(k);
@@ -318,6 +338,27 @@ impl OpsWorld {
             w.start_canary();
         }
         w
+    }
+
+    /// Replace the base descriptor by a direct one made from it.
+    fn convert_base_fd(&mut self) {
+        let env = ops::Env { sq: self.sq.as_ref().unwrap(), fd: self.fd.unwrap(), pool: None, nth: 98 };
+        let mut op = ops::make(Kind::ToDirect, &env);
+        let w = self.new_waker();
+        let mut cx = Context::from_waker(&w.waker);
+        assert_eq!(op.poll(&mut cx), Seen::Pending);
+        talloc::track(|| self.ring.as_mut().unwrap().poll(Some(Duration::ZERO)).unwrap());
+        let s = simk::with(|k| k.inflight()[0]);
+        simk::with(|k| k.complete(s, Out::Default));
+        talloc::track(|| self.ring.as_mut().unwrap().poll(Some(Duration::ZERO)).unwrap());
+        assert!(matches!(op.poll(&mut cx), Seen::Ready(_)));
+        let dfd = op.held.borrow_mut().pop().unwrap();
+        let dfd: &'static AsyncFd = talloc::track(|| Box::leak(Box::new(dfd)));
+        talloc::track(|| drop(op));
+        self.fd_regular = self.fd.replace(dfd);
+        BASE_FD_DIRECT.store(true, std::sync::atomic::Ordering::SeqCst);
+        self.log_pos = simk::with(|k| k.log.len());
+        self.written_pos = simk::with(|k| k.written.len());
     }
 
     fn report(&mut self, prop: &'static str, sig: &str, msg: String) {
@@ -361,6 +402,7 @@ impl OpsWorld {
             cancel_expected: 0,
             cancels_seen: 0,
             ready_unwoken_since: None,
+            prefix: Vec::new(),
         });
     }
 
@@ -468,12 +510,22 @@ impl OpsWorld {
         }
     }
 
+    fn render_slot(&self, i: usize, o: &OutRec) -> String {
+        let s = &self.slots[i];
+        if s.kind == Kind::RereadHeld && o.res >= 0 {
+            let hx = |b: &[u8]| -> String { b.iter().map(|b| format!("{b:02x}")).collect() };
+            return format!("buf:{}{}", hx(&s.prefix), hx(&o.data));
+        }
+        Self::render(s.kind, s.nth, o)
+    }
+
     /// Expected rendering of a completion of `kind`.
     pub fn render(kind: Kind, nth: usize, out: &OutRec) -> String {
         use Kind::*;
         if out.res < 0 {
             return format!("err:{}", -out.res);
         }
+        let base_direct = BASE_FD_DIRECT.load(std::sync::atomic::Ordering::SeqCst);
         let hx = |b: &[u8]| -> String { b.iter().map(|b| format!("{b:02x}")).collect() };
         let split = |caps: &[usize]| -> Vec<String> {
             let mut rest = &out.data[..];
@@ -505,6 +557,9 @@ impl OpsWorld {
             WriteVec | WriteStatic | WriteString | WriteBoxed | WriteArc | WriteVectored2 | WriteVectoredTuple | Send
             | SendZc | SendTo | SendToZc | SendVectored | SendVectoredZc | SpliceTo | SpliceFrom | SendToVectored => format!("n:{}", out.res),
             ReadPool | RecvPool | MultishotRead | MultishotRecv => format!("buf:{}", hx(&out.data)),
+            // Accepting on a direct descriptor yields direct descriptors.
+            Accept if base_direct => format!("fd:Direct:{}:from:{}", out.res, addr()),
+            AcceptNoAddr | MultishotAccept if base_direct => format!("fd:Direct:{}", out.res),
             Accept => format!("fd:File:{}:from:{}", out.res, addr()),
             AcceptNoAddr | MultishotAccept | OpenFile | Socket | OpenTemp => format!("fd:File:{}", out.res),
             OpenDirect | SocketDirect => format!("fd:Direct:{}", out.res),
@@ -523,6 +578,7 @@ impl OpsWorld {
             | WriteAllVectored | SendAll | CloseFd | Listen | SyncData | FAdvise | Allocate | MemAdvise | SendAllVectored
             | Pollable => "unit".to_string(),
             SockOpt | Statx | WaitId => "opaque".to_string(),
+            RereadHeld => format!("buf:?{}", hx(&out.data)),
             ReceiveSignal | ReceiveSignals | ReceiveSignalsIntoInner => {
                 // signalfd_siginfo: ssi_pid at 12, ssi_uid at 16.
                 let u = |o: usize| out.data.get(o..o + 4).map_or(0, |b| u32::from_ne_bytes(b.try_into().unwrap()));
@@ -620,7 +676,7 @@ impl OpsWorld {
                     data: o.data.clone(),
                 });
             }
-            let value = Self::render(kind, nth, &o);
+            let value = self.render_slot(i, &o);
             self.slots[i].recs.push(Rec { serial, res: o.res, flags: o.flags, value, skipped: o.skipped });
         }
         self.absorb_kernel_log();
@@ -764,7 +820,8 @@ impl OpsWorld {
             });
             let have = self.slots[i].recs.len();
             for (serial, o) in all.into_iter().skip(have) {
-                let value = Self::render(kind, nth, &o);
+                let _ = (kind, nth);
+                let value = self.render_slot(i, &o);
                 self.slots[i].recs.push(Rec { serial, res: o.res, flags: o.flags, value, skipped: o.skipped });
             }
         }
@@ -902,7 +959,16 @@ impl OpsWorld {
             (a, b) => a == b,
         };
         if !matches {
-            let prop = if self.cfg.prop == "C05" { "C05" } else if self.cfg.prop == "C09" { "C09" } else { "C02" };
+            let prop = if self.cfg.prop == "C05" {
+                "C05"
+            } else if self.cfg.prop == "C09" {
+                "C09"
+            } else if self.cfg.prop == "C08" && kind == Kind::RereadHeld {
+                // What a re-used pool buffer holds afterwards is C08's business.
+                "C08"
+            } else {
+                "C02"
+            };
             let sig = format!("wrong-result/{:?}/{}", kind, match (&expected, &seen) {
                 (Seen::Pending, Seen::Ready(_)) => "ready-too-early-or-foreign",
                 (Seen::Pending, Seen::End) => "ended-too-early",
@@ -1195,6 +1261,15 @@ impl World for OpsWorld {
                 v.push((Action::Stdio(1), 1));
             }
         }
+        if self.cfg.reread_held && self.created < self.cfg.max_ops + 2 {
+            for i in 0..self.slots.len() {
+                if !self.held_of(i).1.borrow().is_empty() {
+                    for via in 0..5u8 {
+                        v.push((Action::RereadHeld(i, via), if via == 2 { 0 } else { 1 }));
+                    }
+                }
+            }
+        }
         v
     }
 
@@ -1257,6 +1332,48 @@ impl World for OpsWorld {
                     cancels_seen: 0,
                     ready_unwoken_since: None,
                     held: Default::default(),
+                    prefix: Vec::new(),
+                });
+            }
+            Action::RereadHeld(i, via) => {
+                let (_, bufs) = self.held_of(*i);
+                let buf = bufs.borrow_mut().remove(0);
+                let prefix = buf[..].to_vec();
+                let addr = buf.as_ptr() as usize;
+                let new_slot = self.slots.len();
+                if let Some(bid) = self.pool_bufs.iter().position(|(a, l)| addr >= *a && addr < *a + *l as usize) {
+                    for sel in self.sels.iter_mut().filter(|s| s.bid == bid as u16 && s.state == SelState::Owned) {
+                        sel.slot = new_slot;
+                    }
+                }
+                let op = ops::make_reread(self.fd.unwrap(), buf, *via);
+                let nth = self.created;
+                self.created += 1;
+                let waker = self.new_waker();
+                let held = (op.held.clone(), op.bufs.clone());
+                self.slots.push(Slot {
+                    kind: Kind::RereadHeld,
+                    op: Some(op),
+                    nth,
+                    ud: None,
+                    waker,
+                    polled: false,
+                    pending: None,
+                    blocked: false,
+                    phase: Phase::NotStarted,
+                    dropped: false,
+                    recs: Vec::new(),
+                    taken: 0,
+                    attempt_start: 0,
+                    first_sqe: None,
+                    n_sqes: 0,
+                    items: 0,
+                    seen: Vec::new(),
+                    cancel_expected: 0,
+                    cancels_seen: 0,
+                    ready_unwoken_since: None,
+                    held,
+                    prefix,
                 });
             }
             Action::Stdio(which) => {
@@ -1389,6 +1506,9 @@ impl OpsWorld {
                 s.held.1.borrow_mut().clear();
             }
             if let Some(fd) = self.fd.take() {
+                drop(unsafe { Box::from_raw(std::ptr::from_ref(fd).cast_mut()) });
+            }
+            if let Some(fd) = self.fd_regular.take() {
                 drop(unsafe { Box::from_raw(std::ptr::from_ref(fd).cast_mut()) });
             }
             let _ = self.ring.as_mut().unwrap().poll(Some(Duration::ZERO));
